@@ -100,7 +100,10 @@ ExpAlpha == {-60, 60, 90, 120, 6000}
 Hours == 0 .. (NH - 1)
 MissAlpha == {{}, {2}} \cup (IF Level > 1 THEN {{1, 2}, {1}} ELSE {})     \* hours without a book row
 MarkAlpha == {Mark7, P4(4)}
-Configs2 == {[exp |-> e, miss |-> ms, delist |-> dl, mark |-> m] : e \in ExpAlpha, ms \in MissAlpha, dl \in BOOLEAN, m \in MarkAlpha}
+(* Grid 5 (bars two hours apart): only odd hours are ever without a row - what a two-hour bar shows when its own hour has no row is
+   a matter of the resampling rule, not of this property *)
+MissFor == IF Grid = 5 THEN {{}, {1}} \cup (IF Level > 1 THEN {{1, 3}} ELSE {}) ELSE MissAlpha
+Configs2 == {[exp |-> e, miss |-> ms, delist |-> dl, mark |-> m] : e \in ExpAlpha, ms \in MissFor, dl \in BOOLEAN, m \in MarkAlpha}
 RowsOf(cf) == Hours \ cf.miss
 
 SeqOfSet(S) == LET RECURSIVE F(_)
@@ -114,6 +117,9 @@ BarTimes(cf) ==
     [] Grid = 2 -> SeqOfSet(UNION {{60 * h, 60 * h + 1, 60 * h + 30, 60 * h + 59} : h \in Hours} \ {60 * (NH - 1) + 30, 60 * (NH - 1) + 59})
     [] Grid = 4 -> SeqOfSet(UNION {{60 * h, 60 * h + 15, 60 * h + 30, 60 * h + 45} : h \in Hours} \ {60 * (NH - 1) + 30, 60 * (NH - 1) + 45})
                    \* a minutely co-market RESAMPLED to 15-minute bars: the hourly book must not be up-sampled into the off-hour bars
+    [] Grid = 5 -> [j \in 1 .. (NH \div 2) |-> 120 * (j - 1)]
+                   \* the option market alone on a TWO-hour grid (interval "2h"): a bar shows the book of its own hour - the hours in
+                   \* between exist in the data (with other books and prices) and are never visible
 
 ListedAt(cf, i, t) == ~(cf.delist /\ t >= Info2(cf)[i].exp)
 Row2(cf, i, h, u) ==
